@@ -59,7 +59,8 @@ theorem numFunctions_open (b : Basis K) (hper : b.periodic = -1) :
 /-- Read-back of the curve built by `cpcPick`. -/
 theorem cpcPick_ok (o o' : Obj K) (dir : ℕ) (x : K) (m : ℕ) (hax : dir < o.cps.shape.length)
     (hsh : o'.cps.shape = o.cps.shape.set dir m) (hout : outerN o' dir = outerN o dir)
-    (hinn : innerN o' dir = innerN o dir) (hrow : (o'.basis dir).bisectL x - 1 < m) :
+    (hinn : innerN o' dir = innerN o dir) (hrow : (o'.basis dir).bisectL x - 1 < m)
+    (hnf : (o'.basis dir).numFunctions = m) :
     ∃ crv, Obj.cpcPick o o' dir x = .ok crv ∧ crv.bases = #[o.basis (1 - dir)] ∧
       crv.rational = o.rational ∧ crv.cps.shape = o.cps.shape.eraseIdx dir ∧
       ∀ a i, a < outerN o dir → i < innerN o dir →
@@ -72,7 +73,7 @@ theorem cpcPick_ok (o o' : Obj K) (dir : ℕ) (x : K) (m : ℕ) (hax : dir < o.c
     ?_, rfl, rfl, ?_, ?_⟩
   · unfold Obj.cpcPick
     simp only []
-    rw [hget, if_neg (by omega)]
+    rw [hnf, if_neg (by omega), Nat.mod_eq_of_lt hrow, hget, if_neg (by omega)]
   · show ((o'.cps.shape.set dir 1).eraseIdx dir) = _
     rw [hsh]
     simp [List.eraseIdx_set_eq]
@@ -85,7 +86,7 @@ theorem cpcPick_ok (o o' : Obj K) (dir : ℕ) (x : K) (m : ℕ) (hax : dir < o.c
 
 /-- The hypotheses shared by the three cases. -/
 structure CpcSetup (o : Obj K) (direction : Int ⊕ String) (dir : ℕ) (tol x : K) : Prop where
-  hdirn : checkDirection direction 2 = .ok dir
+  hdirn : Sections.checkDirection direction 2 = .ok dir
   hdir : dir < o.bases.size
   hax : dir < o.cps.shape.length
   hv : (o.basis dir).Valid
@@ -142,7 +143,7 @@ theorem cpc_interior (o : Obj K) (direction : Int ⊕ String) (dir : ℕ) (tol x
     exact absurd hx.2 (not_lt.2 this)
   have hrl : (o.basis dir).bisectR x + ((o.basis dir).order - 1 - ((o.basis dir).bisectR x - (o.basis dir).bisectL x)) = (o.basis dir).bisectL x + ((o.basis dir).order - 1) := by omega
   obtain ⟨crv, c1, c2, c3, c4, c5⟩ := cpcPick_ok o o' dir x ((o.basis dir).numFunctions + ((o.basis dir).order - 1 - ((o.basis dir).bisectR x - (o.basis dir).bisectL x))) hax hsh hout hinn
-    (by rw [eL]; omega)
+    (by rw [eL]; omega) hR.num_eq
   refine ⟨crv, hcall.trans c1, c2, c3, c4, fun a i ha hi => ?_⟩
   rw [c5 a i ha hi, eL, ← hsame a i ha hi s x]
   symm
@@ -184,7 +185,7 @@ theorem cpc_start (o : Obj K) (direction : Int ⊕ String) (dir : ℕ) (tol x : 
   have hbb : o'.basis dir = o.basis dir := hsameb rfl
   have hn1 := numFunctions_pos hv
   obtain ⟨crv, c1, c2, c3, c4, c5⟩ := cpcPick_ok o o' dir x ((o.basis dir).numFunctions + 0) hax hsh hout hinn
-    (by rw [hbb, hl0]; omega)
+    (by rw [hbb, hl0]; omega) hR.num_eq
   refine ⟨crv, hcall.trans c1, c2, c3, c4, fun a i ha hi => ?_⟩
   rw [c5 a i ha hi, hbb, hl0, ← hsame a i ha hi .right x, hbb]
   have := c15_clamped_start (o.basis dir).kn hm ((o.basis dir).order - 1) ((o.basis dir).numFunctions + 0) (by omega) (fibre o' dir a i)
@@ -229,7 +230,7 @@ theorem cpc_stop (o : Obj K) (direction : Int ⊕ String) (dir : ℕ) (tol x : K
   rw [hk0] at hR hsh hsame hsameb
   have hbb : o'.basis dir = o.basis dir := hsameb rfl
   obtain ⟨crv, c1, c2, c3, c4, c5⟩ := cpcPick_ok o o' dir x ((o.basis dir).numFunctions + 0) hax hsh hout hinn
-    (by rw [hbb, hln]; omega)
+    (by rw [hbb, hln]; omega) hR.num_eq
   refine ⟨crv, hcall.trans c1, c2, c3, c4, fun a i ha hi => ?_⟩
   rw [c5 a i ha hi, hbb, hln, ← hsame a i ha hi .left x, hbb]
   have := c15_clamped_end (o.basis dir).kn hm ((o.basis dir).order - 1) ((o.basis dir).numFunctions + 0) (by omega) (fibre o' dir a i)
